@@ -338,7 +338,7 @@ def gen_scenario(rng, lean, path, kind, feats):
             return n
         return None
 
-    def enddef():
+    def enddef(fresh=False):
         if rng.chance(1, 2):
             args = (0, 0, 0, 0)
             line = 'enddef'
@@ -352,7 +352,100 @@ def gen_scenario(rng, lean, path, kind, feats):
             return 'model rejects the layout: %s for %s' % (err, q[:3000])
         ok(line)
         ops.append(('inq', dict(kind='inq', values=m.inq_expect(), query=q)))
+        # the header (and the data moved by a redefinition) must be in the file right after enddef
+        # (write_NC): snapshot before anything else happens
+        if m.rehdr(lean):
+            return 'ENCL failed'
+        extra = {}
+        if fresh:
+            # alignment the application asked for (documented precedence: hints, then ncmpi__enddef arguments, then defaults)
+            ha = env[0] or env[1] or args[1] or 512
+            ra = env[2] or args[3] or 4
+            extra = dict(fresh_align=((ha + 3) // 4 * 4, (ra + 3) // 4 * 4))
+        ops.append(('snap ' + path, dict(kind='snap', point='enddef', **extra, **m.snapshot_expect())))
         return None
+
+    def sel(size):
+        """(start, count, stride) inside one dimension of length `size`"""
+        r = rng.below(4)
+        if r == 0 or size == 1:
+            return 0, size, 1
+        if r == 3 and size >= 3:
+            st = rng.below(2)
+            stride = rng.choice([2, 2, 3])
+            cnt = rng.range(1, (size - st + stride - 1) // stride)
+            return st, cnt, stride
+        cnt = rng.range(1, size - 1)
+        return rng.range(0, size - cnt), cnt, 1
+
+    def access():
+        """one blocking collective sub-array / strided put or get on a random variable (non-contiguous
+        file views on rank 0 are left in place by the library: the next enddef / sync goes through them)"""
+        cand = []
+        for k, v in enumerate(m.s['vars']):
+            if not v['dimids']:
+                continue
+            if v['isrec']:
+                if m.data.get(k):
+                    cand.append(k)
+            elif k in m.data:
+                cand.append(k)
+        if not cand:
+            return
+        # prefer variables with at least two dimensions (true sub-arrays)
+        multi = [k for k in cand if len(m.s['vars'][k]['dimids']) >= 2]
+        k = rng.choice(multi) if multi and rng.chance(3, 4) else rng.choice(cand)
+        v = m.s['vars'][k]
+        shape = [m.s['dims'][i]['size'] for i in v['dimids']]
+        ts = TSIZE[v['type']]
+        if v['isrec']:
+            rec = rng.choice(sorted(m.data[k].keys()))
+            inner = [sel(sz) for sz in shape[1:]]
+            ss = [(rec, 1, 1)] + inner
+            buf = bytearray(m.data[k][rec])
+            ishape = shape[1:]
+        else:
+            inner = [sel(sz) for sz in shape]
+            ss = inner
+            buf = bytearray(m.data[k])
+            ishape = shape
+        idx = [0]
+        for (st, cnt, sd), sz in zip(inner, ishape):
+            idx = [i * sz + st + j * sd for i in idx for j in range(cnt)]
+        strided = any(s[2] != 1 for s in ss)
+        spec = '%d %d %s %s %s' % (k, len(ss), ' '.join(str(s[0]) for s in ss), ' '.join(str(s[1]) for s in ss),
+                                 ' '.join(str(s[2]) for s in ss) if strided else '-')
+        feats.add('strided-access' if strided else 'subarray-access')
+        if rng.chance(1, 2):
+            val = gen_value(rng, v['type'], len(idx))
+            for j, i in enumerate(idx):
+                buf[i * ts:(i + 1) * ts] = val[j * ts:(j + 1) * ts]
+            if v['isrec']:
+                m.data[k][rec] = bytes(buf)
+            else:
+                m.data[k] = bytes(buf)
+            ok('acc put %s %s' % (spec, hx(val)))
+        else:
+            exp = b''.join(bytes(buf[i * ts:(i + 1) * ts]) for i in idx)
+            ops.append(('acc get %s' % spec, dict(kind='get', data=exp)))
+
+    def accesses():
+        for _ in range(rng.choice([0, 1, 1, 2, 3])):
+            access()
+
+    def readback():
+        """whole-variable reads of what the application wrote so far"""
+        for k, v in enumerate(m.s['vars']):
+            if not v['dimids'] or not rng.chance(1, 2):
+                continue
+            shape = [m.s['dims'][i]['size'] for i in v['dimids']]
+            if v['isrec']:
+                for rec, b in sorted(m.data.get(k, {}).items()):
+                    ops.append(('acc get %d %d %s %s -' % (k, len(shape), ' '.join(['%d' % rec] + ['0'] * (len(shape) - 1)),
+                                                          ' '.join(['1'] + [str(s) for s in shape[1:]])), dict(kind='get', data=b)))
+            elif k in m.data:
+                ops.append(('acc get %d %d %s %s -' % (k, len(shape), ' '.join(['0'] * len(shape)), ' '.join(str(s) for s in shape)),
+                            dict(kind='get', data=m.data[k])))
 
     def write_data():
         for k, v in enumerate(m.s['vars']):
@@ -380,21 +473,16 @@ def gen_scenario(rng, lean, path, kind, feats):
 
     ok('create %s %d %d %d %d 0' % (path, fmt, env[0], env[1], env[2]))
     def_phase(True)
-    e = enddef()
+    e = enddef(fresh=True)
     if e:
         return None, e
-    # the header must be in the file right after enddef (write_NC): snapshot before any data
-    if m.rehdr(lean):
-        return None, 'ENCL failed'
-    # alignment the application asked for (documented precedence: hints, then ncmpi__enddef arguments, then defaults)
-    a = m.last_args
-    ha = env[0] or env[1] or a[1] or 512
-    ra = env[2] or a[3] or 4
-    ops.append(('snap ' + path, dict(kind='snap', point='enddef', fresh_align=((ha + 3) // 4 * 4, (ra + 3) // 4 * 4), **m.snapshot_expect())))
     write_data()
+    accesses()
     e = promised('sync-after-write')
     if e:
         return None, e
+    if rng.chance(2, 3):
+        accesses()           # the last data access before a redef is often a non-contiguous one
     nphase = rng.choice([0, 0, 1, 1, 2]) if kind == 'plain' else (1 if kind == 'novars' else 0)
     for ph in range(nphase):
         if rng.chance(1, 2):
@@ -421,10 +509,14 @@ def gen_scenario(rng, lean, path, kind, feats):
         e = enddef()
         if e:
             return None, e
+        readback()
         write_data()
+        accesses()
         e = promised('sync-after-redef-%d' % ph)
         if e:
             return None, e
+        if rng.chance(1, 2):
+            accesses()       # leave a data-access file view in place for the next redef / close
     ok('close')
     if kind == 'plain' and rng.chance(1, 3):
         # reopen for writing (possibly with other hints), redefine, close: ncp->old now comes from
@@ -446,7 +538,9 @@ def gen_scenario(rng, lean, path, kind, feats):
         e = enddef()
         if e:
             return None, e
+        readback()
         write_data()
+        accesses()
         e = promised('sync-after-reopen-redef')
         if e:
             return None, e
@@ -669,7 +763,7 @@ def run_check(tier, seed):
                     f.write(line + '\n')
             for line in replay_ops:
                 f.write(line + '\n')
-        ranks = [1, 2] if tier == 'quick' else [1, 2, 4]
+        ranks = [1, 2, 3] if tier == 'quick' else [1, 2, 3, 4]
         tie_diffs, prop_fail, spec_q = [], [], []
         evals, distinct = 0, set()
         for n in ranks:
@@ -729,7 +823,11 @@ def run_check(tier, seed):
                         if got[1] != '0':
                             prop_fail.append(('api-error:' + op, sc, where, 'call failed with %s' % got[1]))
                             continue
-                        if exp['kind'] == 'def' and int(got[2]) != exp['id']:
+                        if exp['kind'] == 'get':
+                            if unhx(got[2] if len(got) > 2 else '-') != exp['data']:
+                                prop_fail.append(('readback', sc, where, 'data read back %s, data written %s' %
+                                                  ((got[2] if len(got) > 2 else '-')[:200], hx(exp['data'])[:200])))
+                        elif exp['kind'] == 'def' and int(got[2]) != exp['id']:
                             tie_diffs.append(dict(where=where, got=got[:4], expected_id=exp['id']))
                         elif exp['kind'] == 'inq':
                             vals = [int(x) for x in got[2:]]
